@@ -524,7 +524,9 @@ class LambdaExpression(Expression):
         return [self.expression]
 
     def scope(self) -> Iterable[Identifier]:
-        return self.params
+        # `map()` binds the item and, if there is a second parameter, the index.
+        # Any further parameter is never bound when the expression is applied.
+        return self.params[:2]
 
     def map(self, context: RenderContext, it: Iterable[object]) -> Iterator[object]:
         """Return an iterator mapping this expression to items in _it_."""
